@@ -169,7 +169,7 @@ void World::s_close(StreamState& s, const char* why) {
         auto& r = crec(c);
         if (r.t_closed < 0) { r.t_closed = now(); r.seq_closed = next_seq(); r.closed_by = was_dead ? r.closed_by : "client"; if (r.close_cause.empty()) r.close_cause = why; }
         log(Ev::conn_close, c->id, -1, 0, std::string("by client: ") + why);
-        if (broker) broker->on_conn_lost(c, true);
+        notify_broker_lost(c, true);
     }
 }
 
@@ -343,8 +343,8 @@ void World::s_write(StreamState& s, std::string bytes, IoHandler hnd) {
         crec(c).c2b_bytes = c->c2b_sent;
         h.writes[w.id].delivered = len;
         log(Ev::fault, c->id, w.id, (int64_t)f->at, "batch delivered completely, write reported failed (" + ec_name(ec) + ")");
-        // the bytes are already on the wire: the broker processes them before it notices the connection is gone
-        if (broker) { crec(c).c2b_delivered += len; broker->on_bytes(c, bytes, w.id); }
+        // the bytes are already on the wire: the broker processes them (in order) before it notices the connection is gone
+        deliver_c2b(c, bytes, w.id);
         auto& wr = h.writes[w.id]; wr.done = true; wr.result = ec; wr.seq_end = next_seq(); wr.t_end = now();
         log(Ev::write_end, c->id, w.id, 0, ec_name(ec));
         post_handler(s.ex, std::move(hnd), ec, size_t(0));
@@ -467,7 +467,15 @@ void World::kill(const ConnPtr& c, error_code read_ec, error_code write_ec, cons
         complete_io(c->p_write, write_ec, 0);
     }
     if (c->p_shutdown) { log(Ev::shutdown_end, c->id, -1, 0, ec_name(write_ec)); complete_ec(c->p_shutdown, write_ec); }
-    if (broker) broker->on_conn_lost(c, false);
+    notify_broker_lost(c, false);
+}
+
+// the broker sees the end of a connection only after the client bytes that were already in flight
+void World::notify_broker_lost(const ConnPtr& c, bool by_client) {
+    if (!broker) return;
+    vt when = std::max(now(), c->c2b_last_arrival);
+    std::weak_ptr<Conn> wc = c;
+    at(when, [this, wc, by_client] { if (auto c = wc.lock(); c && broker) broker->on_conn_lost(c, by_client); });
 }
 
 void World::s_shutdown(StreamState& s, EcHandler hnd) {
